@@ -16,6 +16,8 @@ package c14
 //	          | P:<cfg>         POST /load <cfg> on the admin socket of the running process
 //	          | K               SIGKILL the running process
 //	    cfg   = <n><p|d|n>[x]   config number, admin.config.persist true / absent / false, x = its app fails to provision
+//	          | c<n><d|n>       (S only) a CADDYFILE, adapted by the real httpcaddyfile adapter (`--adapter caddyfile`):
+//	                            global options `admin … { origins n<n>.c14.test }` (the number) and, for n, `persist_config off`
 //	answer per event: S=<running config>|S=fail   P=<ok|rej>   K   each followed by {a=<autosave file at the path
 //	the environment AFTER the env files gives>,b=<… at the path the process environment alone gives>}
 //
@@ -36,6 +38,7 @@ import (
 	"syscall"
 	"time"
 
+	_ "github.com/caddyserver/caddy/v2/caddyconfig/httpcaddyfile"
 	caddycmd "github.com/caddyserver/caddy/v2/cmd"
 
 	"verif/harness/internal/core"
@@ -73,9 +76,10 @@ type rsAssign struct {
 }
 
 type rsCfg struct {
-	n       string
-	persist byte
-	fail    bool
+	n         string
+	persist   byte
+	fail      bool
+	caddyfile bool
 }
 
 func (c rsCfg) token() string {
@@ -87,6 +91,14 @@ func (c rsCfg) token() string {
 }
 
 func parseRSCfg(s string) (rsCfg, bool) {
+	if strings.HasPrefix(s, "c") {
+		c, ok := parseRSCfg(s[1:])
+		if !ok || c.fail || c.persist == 'p' {
+			return rsCfg{}, false
+		}
+		c.caddyfile = true
+		return c, true
+	}
 	i := 0
 	for i < len(s) && s[i] >= '0' && s[i] <= '9' {
 		i++
@@ -232,10 +244,41 @@ func (c rsCfg) json(sock string) []byte {
 	return b
 }
 
+// caddyfileText is the Caddyfile of a c-config.
+func (c rsCfg) caddyfileText(sock string) []byte {
+	var sb strings.Builder
+	sb.WriteString("{\n\tadmin unix/" + sock + " {\n\t\torigins n" + c.n + ".c14.test\n\t}\n")
+	if c.persist == 'n' {
+		sb.WriteString("\tpersist_config off\n")
+	}
+	sb.WriteString("}\n")
+	return []byte(sb.String())
+}
+
 // tokOfJSON: the token of a config document ("-" none, "~" not one of ours)
 func tokOfJSON(b []byte) string {
 	if b == nil {
 		return "-"
+	}
+	// a config adapted from one of our Caddyfiles: the number is in the admin origin
+	var cf struct {
+		Admin struct {
+			Origins []string `json:"origins"`
+			Config  *struct {
+				Persist *bool `json:"persist"`
+			} `json:"config"`
+		} `json:"admin"`
+	}
+	if json.Unmarshal(b, &cf) == nil && len(cf.Admin.Origins) == 1 && strings.HasPrefix(cf.Admin.Origins[0], "n") &&
+		strings.HasSuffix(cf.Admin.Origins[0], ".c14.test") {
+		n := strings.TrimSuffix(strings.TrimPrefix(cf.Admin.Origins[0], "n"), ".c14.test")
+		if _, err := strconv.Atoi(n); err == nil {
+			letter := "d"
+			if cf.Admin.Config != nil && cf.Admin.Config.Persist != nil {
+				letter = map[bool]string{true: "p", false: "n"}[*cf.Admin.Config.Persist]
+			}
+			return n + letter
+		}
 	}
 	var v struct {
 		Apps struct {
@@ -371,13 +414,21 @@ func runRS(line string, f []string) core.Outcome {
 		case 'S':
 			kill() // a new start means the old process is gone
 			cfgPath := filepath.Join(work, fmt.Sprintf("config%d.json", i))
-			os.WriteFile(cfgPath, ev.cfg.json(sock), 0o600)
 			args := []string{"run"}
 			if ev.resume {
 				args = append(args, "--resume")
 			}
 			args = append(args, envArgs...)
-			args = append(args, "--config", cfgPath)
+			if ev.cfg.caddyfile {
+				tags["caddyfile-config"] = true
+				cfgPath = filepath.Join(work, fmt.Sprintf("Caddyfile%d", i))
+				os.WriteFile(cfgPath, ev.cfg.caddyfileText(sock), 0o600)
+				args = append(args, "--config", cfgPath, "--adapter", "caddyfile")
+			} else {
+				os.WriteFile(cfgPath, ev.cfg.json(sock), 0o600)
+				args = append(args, "--config", cfgPath)
+			}
+			autosaveBefore, _ := os.ReadFile(pathA)
 			exe, _ := os.Executable()
 			cmd := exec.Command(exe, args...)
 			cmd.Dir = filepath.Join(work, "cwd")
@@ -426,10 +477,19 @@ func runRS(line string, f []string) core.Outcome {
 							i+1, line, tok, lastPersisted, fileTok(pathA), fileTok(pathB)))
 				}
 			}
-			// the start-up's own load persists, too
+			// the start-up's own load persists, too — unless its config says not to
 			if len(tok) > 0 && tok != "~" {
 				if cfg, ok := parseRSCfg(tok); ok && cfg.persist != 'n' {
 					lastPersisted = tok
+					if got := fileTok(pathA); got != tok {
+						fail("rs-autosave-not-latest-after-start", fmt.Sprintf("event %d of %q: came up running %s, the autosave file holds %s", i+1, line, tok, got))
+					}
+				} else if ok {
+					tags["start:persist-off"] = true
+					if now, _ := os.ReadFile(pathA); string(now) != string(autosaveBefore) {
+						fail("rs-autosave-written-although-persistence-off",
+							fmt.Sprintf("event %d of %q: the config that came up (%s) has persistence off, yet the autosave file changed to %s", i+1, line, tok, tokOfJSON(now)))
+					}
 				}
 			}
 			outs = append(outs, "S="+tok+state())
